@@ -152,6 +152,8 @@ def _filter_contract(crate, h):
 
 def make_model(crate, parse_bounds, counter):
     helper_names = {crate.bodies[h].name: b for h, b in parse_bounds.items()}
+    # (a renamed helper is listed under the name it has in the source as well: the interpreter reads callee names off the raw MIR)
+    helper_names.update({getattr(crate.bodies[h], "real_name", crate.bodies[h].name): b for h, b in parse_bounds.items()})
 
     def model(name, args, st, term):
         if name in helper_names:
